@@ -12,6 +12,7 @@ func init() {
 	replayers["C20"] = replayC20
 	replayers["C08"] = replayClean
 	replayers["C06"] = replayC06
+	replayers["C16"] = replayC16
 	replayers["C01"] = replayClean
 }
 
@@ -582,4 +583,103 @@ func TestVerifReplayC06(t *testing.T) {
 		return false, "replay could not run: " + err.Error() + "\n"
 	}
 	return !passed && strings.Contains(out, "REPRODUCED"), trimOut(out)
+}
+
+// ---------------------------------------------------------------------------
+// C16: lock checks on push (prepareUpload) and the --id unlock guard.
+
+func replayC16(w *World, ob *Obligation, vc *VC) (bool, string) {
+	switch {
+	case strings.Contains(ob.Func, "prepareUpload"):
+		test := `package commands
+
+import (
+	"testing"
+
+	"github.com/git-lfs/git-lfs/v3/lfs"
+)
+
+func TestVerifReplayC16(t *testing.T) {
+	oid := "4d7a214614ab2935c943f9e0ff69d22eadbb8f32b1258daaa5e2ca24d17e2393"
+	mk := func(name string, size int64) *lfs.WrappedPointer {
+		return &lfs.WrappedPointer{Name: name, Pointer: &lfs.Pointer{Oid: oid, Size: size}}
+	}
+	cases := map[string][]*lfs.WrappedPointer{
+		"foreign-locked path whose content duplicates an earlier path": {mk("free.bin", 12), mk("locked-by-them.bin", 12)},
+		"foreign-locked empty file":                                     {mk("locked-by-them.bin", 0)},
+		"foreign-locked path, plain":                                    {mk("locked-by-them.bin", 12)},
+	}
+	for name, ptrs := range cases {
+		lv := &lockVerifier{verifyState: verifyStateEnabled, verifiedRefs: map[string]bool{}, ourLocks: map[string]*refLock{},
+			theirLocks: map[string]*refLock{"locked-by-them.bin": {path: "locked-by-them.bin"}}}
+		c := &uploadContext{lockVerifier: lv, meter: nil, uploadedOids: nil}
+		c.uploadedOids = newStringSetForReplay()
+		c.prepareUpload(ptrs...)
+		if !lv.HasUnownedLocks() {
+			t.Errorf("REPRODUCED: %s: the push would not be rejected (no foreign lock recorded)", name)
+		}
+	}
+}
+`
+		test = strings.Replace(test, "newStringSetForReplay()", "tools.NewStringSet()", 1)
+		test = strings.Replace(test, `"github.com/git-lfs/git-lfs/v3/lfs"`, `"github.com/git-lfs/git-lfs/v3/lfs"`+"\n\t"+`"github.com/git-lfs/git-lfs/v3/tools"`, 1)
+		out, passed, err := runOverlayTest(w.repoDir, "commands", "zz_verif_replay_test.go", test, "TestVerifReplayC16")
+		if err != nil {
+			return false, "replay could not run: " + err.Error() + "\n"
+		}
+		return !passed && strings.Contains(out, "REPRODUCED"), trimOut(out)
+	case strings.Contains(ob.Func, "SearchLocksVerifiable"):
+		test := `package locking
+
+import (
+	"encoding/json"
+	"net/http"
+	"net/http/httptest"
+	"testing"
+
+	"github.com/git-lfs/git-lfs/v3/config"
+	"github.com/git-lfs/git-lfs/v3/git"
+	"github.com/git-lfs/git-lfs/v3/lfsapi"
+	"github.com/git-lfs/git-lfs/v3/lfshttp"
+)
+
+func TestVerifReplayC16(t *testing.T) {
+	srv := httptest.NewServer(http.HandlerFunc(func(w http.ResponseWriter, r *http.Request) {
+		w.Header().Set("Content-Type", "application/json")
+		json.NewEncoder(w).Encode(lockVerifiableList{
+			Theirs: []Lock{{Id: "99", Path: "art/locked-by-alice.psd", Owner: &User{Name: "Alice"}}},
+			Ours:   []Lock{{Id: "101", Path: "art/mine.psd", Owner: &User{Name: "Fred"}}},
+		})
+	}))
+	defer srv.Close()
+	lfsclient, err := lfsapi.NewClient(lfshttp.NewContext(nil, nil, map[string]string{"lfs.url": srv.URL + "/api", "user.name": "Fred", "user.email": "fred@bloggs.com"}))
+	if err != nil {
+		t.Fatal(err)
+	}
+	client, err := NewClient("", lfsclient, config.New())
+	if err != nil {
+		t.Fatal(err)
+	}
+	if err := client.SetupFileCache(t.TempDir()); err != nil {
+		t.Fatal(err)
+	}
+	client.RemoteRef = &git.Ref{Name: "refs/heads/master"}
+	if _, _, err := client.SearchLocksVerifiable(0, false); err != nil {
+		t.Fatal(err)
+	}
+	if !client.IsFileLockedByCurrentCommitter("art/mine.psd") {
+		t.Errorf("own lock not cached")
+	}
+	if client.IsFileLockedByCurrentCommitter("art/locked-by-alice.psd") {
+		t.Errorf("REPRODUCED: after a lock verification, a file locked by Alice is reported as locked by the current committer (it will be made writable)")
+	}
+}
+`
+		out, passed, err := runOverlayTest(w.repoDir, "locking", "zz_verif_replay_test.go", test, "TestVerifReplayC16")
+		if err != nil {
+			return false, "replay could not run: " + err.Error() + "\n"
+		}
+		return !passed && strings.Contains(out, "REPRODUCED"), trimOut(out)
+	}
+	return false, "no replay template for this obligation (the --id guard needs a Git work tree and a lock server)\n"
 }
